@@ -233,7 +233,11 @@ func (d *driver) next() M {
 		if r.Intn(8) == 0 { // ask about a withdrawal that has been paid
 			st := d.ch.Project()
 			for bk, v := range absx.Map(st["claimed"]) {
-				for lid := range absx.Map(v) {
+				vm, ok := v.(M)
+				if !ok {
+					continue // a marker of the projection, not a bridge
+				}
+				for lid := range vm {
 					var bb, seq, amt int64
 					var from, to, denom string
 					parts := strings.Split(lid, "|")
